@@ -309,7 +309,7 @@ pub fn run(args: &Args) -> i32 {
                     Some(a) => format!("altered-{a:?}"),
                 };
                 let key = format!("{k}:{half}@{}", s.cell.name().split('/').take(4).collect::<Vec<_>>().join("/"));
-                let e = g.entry(key.clone()).or_insert(Finding {
+                let e = g.entry(key.clone()).or_insert_with(|| Finding {
                     key,
                     detail: format!("[{} init={} rounds={} shape_offset={} ({}) target_mode={} alter={:?} size={}] {d}", s.cell.name(), s.init, s.rounds, s.offset, shape_name(s.offset), s.target_mode, s.alter, s.packet_size),
                     replay: json!({"check":"C02","cell":s.cell.name(),"cell_index":c01::cell_index(&s.cell),"initial_sequence":s.init,"rounds":s.rounds,"shape_offset":s.offset,"target_mode":s.target_mode,"alter":format!("{:?}", s.alter),"packet_size":s.packet_size}),
@@ -338,7 +338,7 @@ pub fn run(args: &Args) -> i32 {
             answers += o.world.deliveries.iter().filter(|d| d.genuine).count() as u64;
             for (k, detail) in c01::judge(t, &o) {
                 let key = format!("tcp-expiry:{k}");
-                let e = local.entry(key.clone()).or_insert(Finding { key, detail: format!("[{} {} tcp_connect_timeout={:?} choices={:?}] {detail}", t.cell.name(), t.topo, t.params.tcp_connect_timeout, ch.choices), replay: c01::replay_json("C02x", t, &ch.choices), weight: (ch.deviations(), ch.choices.len()), count: 0 });
+                let e = local.entry(key.clone()).or_insert_with(|| Finding { key, detail: format!("[{} {} tcp_connect_timeout={:?} choices={:?}] {detail}", t.cell.name(), t.topo, t.params.tcp_connect_timeout, ch.choices), replay: c01::replay_json("C02x", t, &ch.choices), weight: (ch.deviations(), ch.choices.len()), count: 0 });
                 e.count += 1;
             }
             local.len() < 20
